@@ -194,7 +194,17 @@ where
                     break;
                 }
                 progress.lock().unwrap()[slot] = Some((i, std::time::Instant::now()));
-                let r = f(i, &items[i]);
+                // the subject's panics are caught inside `f` (util::catch): one that escapes `f` is the harness's own.
+                // It must not be mistaken for a hang of the subject by the watchdog: stop as a machinery error.
+                let r = match std::panic::catch_unwind(std::panic::AssertUnwindSafe(|| f(i, &items[i]))) {
+                    Ok(r) => r,
+                    Err(_) => {
+                        let msg = LAST_PANIC.with(|l| l.borrow_mut().take()).unwrap_or_else(|| "panic".into());
+                        crate::report::outln(&format!("MACHINERY-ERROR: the harness panicked in a worker (item {}): {}", i, msg));
+                        eprintln!("MACHINERY-ERROR: the harness panicked in a worker (item {}): {}", i, msg);
+                        std::process::exit(2);
+                    }
+                };
                 // if the watchdog gave up on this item meanwhile, the slot no longer names it
                 let mine = progress.lock().unwrap()[slot].map(|p| p.0) == Some(i);
                 if mine {
